@@ -1,1 +1,695 @@
-pub fn child_main(_args: &[String]) {}
+//! C10 — answers do not depend on call history, thread interleaving or earlier refusals.
+//! M1 sequential histories (collision-biased, refusals injected at every position of short ones),
+//! M2 16-thread rounds with the guarded yield between the cache's two critical sections,
+//! M3 Miri on a small threaded workload (thorough), M4 fresh processes answering one list in
+//! different orders, M5 per-value memos.  Reference = the cold answer after the guarded cache reset.
+use crate::api::*;
+use crate::log::Log;
+use crate::model::cal::{self, cal};
+use crate::util::{fnv, guard, mix, Rng};
+use crate::{Cfg, Meta, Tier};
+use std::collections::{BTreeMap, BTreeSet};
+use std::sync::{Arc, Barrier, Mutex};
+use tyme4rs::tyme::eightchar::ChildLimit;
+use tyme4rs::tyme::enums::Gender;
+use tyme4rs::tyme::festival::LunarFestival;
+use tyme4rs::tyme::lunar::verif as lhook;
+use tyme4rs::tyme::lunar::{LunarDay, LunarHour, LunarMonth, LunarYear};
+use tyme4rs::tyme::{Culture, Tyme};
+
+#[derive(Clone, Debug, PartialEq, Eq, PartialOrd, Ord, Hash)]
+pub enum Q {
+  Month(i64, i64),
+  YearMonths(i64),
+  SolarToLunar(i64),
+  LunarToSolar(i64, i64, i64),
+  SixtyDay(i64),
+  Festival(i64, i64),
+  EightChar(i64),
+  ChildLimit(i64, bool),
+  MonthNext(i64, i64, i64),
+}
+
+impl Q {
+  pub fn show(&self) -> String {
+    match self {
+      Q::Month(y, m) => format!("LunarMonth::from_ym({}, {})", y, m),
+      Q::YearMonths(y) => format!("LunarYear({}).get_months()", y),
+      Q::SolarToLunar(n) => format!("{}.get_lunar_day()", cal::fmt_dn(*n)),
+      Q::LunarToSolar(y, m, d) => format!("LunarDay({}, {}, {}).get_solar_day()", y, m, d),
+      Q::SixtyDay(n) => format!("{}.get_sixty_cycle_day()", cal::fmt_dn(*n)),
+      Q::Festival(y, i) => format!("LunarFestival::from_index({}, {})", y, i),
+      Q::EightChar(a) => format!("{}.get_lunar_hour().get_eight_char()", fmt_abs(*a)),
+      Q::ChildLimit(a, man) => format!("ChildLimit({}, {})", fmt_abs(*a), if *man { "man" } else { "woman" }),
+      Q::MonthNext(y, m, n) => format!("LunarMonth({}, {}).next({})", y, m, n),
+    }
+  }
+
+  /// canonical answer; a refusal (Err or panic) is the answer "REFUSED"
+  pub fn answer(&self) -> String {
+    let r = guard(|| match self {
+      Q::Month(y, m) => {
+        let x = LunarMonth::from_ym(*y as isize, *m as isize);
+        format!("{}/{} first {} days {} idx {}", x.get_year(), x.get_month_with_leap(), first_dn(&x), x.get_day_count(), x.get_index_in_year())
+      }
+      Q::YearMonths(y) => LunarYear::from_year(*y as isize).get_months().iter().map(|m| format!("{}:{}:{}", m.get_month_with_leap(), first_dn(m), m.get_day_count())).collect::<Vec<_>>().join(","),
+      Q::SolarToLunar(n) => fmt_lymd(lymd(&sd_of_dn(*n).get_lunar_day())),
+      Q::LunarToSolar(y, m, d) => fmt_ymd(ymd(&LunarDay::from_ymd(*y as isize, *m as isize, *d as usize).get_solar_day())),
+      Q::SixtyDay(n) => {
+        let d = sd_of_dn(*n).get_sixty_cycle_day();
+        format!("{} {} {}", d.get_year().get_name(), d.get_month().get_name(), d.get_sixty_cycle().get_name())
+      }
+      Q::Festival(y, i) => match LunarFestival::from_index(*y as isize, *i as usize) {
+        Some(f) => format!("{} {}", fmt_lymd(lymd(&f.get_day())), f.get_name()),
+        None => "none".into(),
+      },
+      Q::EightChar(a) => st_of_abs(*a).get_lunar_hour().get_eight_char().get_name(),
+      Q::ChildLimit(a, man) => {
+        let c = ChildLimit::from_solar_time(st_of_abs(*a), if *man { Gender::MAN } else { Gender::WOMAN });
+        format!("{} y{} m{} d{} h{} mi{} fwd {}", c.get_end_time(), c.get_year_count(), c.get_month_count(), c.get_day_count(), c.get_hour_count(), c.get_minute_count(), c.is_forward())
+      }
+      Q::MonthNext(y, m, n) => {
+        let x = LunarMonth::from_ym(*y as isize, *m as isize).next(*n as isize);
+        format!("{}/{} first {}", x.get_year(), x.get_month_with_leap(), first_dn(&x))
+      }
+    });
+    match r {
+      Ok(s) => s,
+      Err(_) => "REFUSED".into(),
+    }
+  }
+}
+
+/// requests the library must refuse (each kind is injected into histories)
+pub fn refusals() -> Vec<(&'static str, Q)> {
+  let c = cal();
+  vec![
+    ("month-0", Q::Month(2024, 0)),
+    ("month-13", Q::Month(2024, 13)),
+    ("month-minus-13", Q::Month(1999, -13)),
+    ("leap-month-the-year-lacks", Q::Month(2024, -3)),
+    ("year-minus-2", Q::Month(-2, 1)),
+    ("year-10000", Q::Month(10000, 1)),
+    ("lunar-day-31", Q::LunarToSolar(2023, 5, 31)),
+    ("lunar-day-0", Q::LunarToSolar(2023, 5, 0)),
+    ("year-months-10000", Q::YearMonths(10000)),
+    // a birth whose child-limit end falls into the October 1582 gap: panics inside the provider call
+    ("child-limit-end-in-the-1582-gap", Q::ChildLimit(c.dn(1580, 3, 3) * 86400 + 13 * 3600 + 22 * 60 + 37, false)),
+    ("eight-char-in-year-0-territory", Q::EightChar(c.dn(1, 1, 2) * 86400 + 3600)),
+  ]
+}
+
+fn collision_bases(rng: &mut Rng, n: usize) -> Vec<i64> {
+  let mut v = vec![1i64, 2, 20, 202, 203, 999, 100, 190];
+  while v.len() < n {
+    v.push(rng.range(1, 999));
+  }
+  v
+}
+
+/// the pool of valid queries (all in-range, outside the reform eras for day-level ones)
+pub fn pool(seed: u64, size: usize) -> Vec<Q> {
+  let c = cal();
+  let mut rng = Rng::new(mix(seed, 0xC10));
+  let mut set: BTreeSet<Q> = BTreeSet::new();
+  for y in collision_bases(&mut rng, 24) {
+    // (Y, 11) / (10Y+1, 1) and (Y, 12) / (10Y+1, 2) concatenate to the same digits
+    set.insert(Q::Month(y, 11));
+    set.insert(Q::Month(10 * y + 1, 1));
+    set.insert(Q::Month(y, 12));
+    set.insert(Q::Month(10 * y + 1, 2));
+  }
+  let safe_day = |rng: &mut Rng| loop {
+    let n = rng.range(c.dn(30, 1, 1), c.dn(9990, 1, 1));
+    let y = c.date(n).0;
+    if !(233..=243).contains(&y) {
+      return n;
+    }
+  };
+  while set.len() < size {
+    let q = match rng.below(12) {
+      0 | 1 => {
+        let y = rng.range(30, 9990);
+        let leap = LunarYear::from_year(y as isize).get_leap_month() as i64;
+        let m = if leap > 0 && rng.chance(1, 3) { -leap } else { rng.range(1, 12) };
+        Q::Month(y, m)
+      }
+      2 => Q::YearMonths(rng.range(30, 9990)),
+      3 | 4 => Q::SolarToLunar(safe_day(&mut rng)),
+      5 => {
+        let y = rng.range(30, 9990);
+        Q::LunarToSolar(y, rng.range(1, 12), rng.range(1, 29))
+      }
+      6 => Q::SixtyDay(safe_day(&mut rng)),
+      7 => Q::Festival(rng.range(30, 9990), rng.range(0, 12)),
+      8 => Q::EightChar(safe_day(&mut rng) * 86400 + rng.range(0, 86399)),
+      9 => {
+        // child limits far from 1582
+        let n = loop {
+          let n = safe_day(&mut rng);
+          let y = c.date(n).0;
+          if !(1560..=1600).contains(&y) && y < 9900 {
+            break n;
+          }
+        };
+        Q::ChildLimit(n * 86400 + rng.range(0, 86399), rng.chance(1, 2))
+      }
+      10 => {
+        let y = rng.range(30, 9900);
+        Q::MonthNext(y, rng.range(1, 12), rng.range(-30, 30))
+      }
+      _ => {
+        // small years: more digit-collision opportunities
+        let y = rng.range(30, 999);
+        Q::Month(y, rng.range(1, 12))
+      }
+    };
+    set.insert(q);
+  }
+  let mut v: Vec<Q> = set.into_iter().collect();
+  rng.shuffle(&mut v);
+  v
+}
+
+fn cold_answers(qs: &[Q]) -> BTreeMap<Q, String> {
+  let mut m = BTreeMap::new();
+  for q in qs {
+    lhook::lunar_month_cache_reset();
+    m.insert(q.clone(), q.answer());
+  }
+  lhook::lunar_month_cache_reset();
+  m
+}
+
+fn locks_poisoned() -> Vec<&'static str> {
+  let mut v = vec![];
+  if lhook::lunar_month_cache_stats().3 {
+    v.push("lunar month cache");
+  }
+  if lhook::eight_char_provider_poisoned() {
+    v.push("eight-char provider");
+  }
+  if tyme4rs::tyme::eightchar::verif::child_limit_provider_poisoned() {
+    v.push("child-limit provider");
+  }
+  v
+}
+
+fn history_key(h: &[Q]) -> String {
+  let mut x = 0xC10u64;
+  for q in h {
+    x = mix(x, fnv(&q.show()));
+  }
+  format!("{:016x}", x)
+}
+
+/// run one sequential history from a cold cache; compare every answer with its cold answer
+fn run_history(tag: &str, h: &[Q], cold: &BTreeMap<Q, String>, invalid: &BTreeSet<Q>, log: &mut Log) {
+  lhook::lunar_month_cache_reset();
+  log.ev(1);
+  log.count("m1.histories", 1);
+  log.nt_distinct(fnv(&history_key(h)));
+  let mut injected = false;
+  for (pos, q) in h.iter().enumerate() {
+    let got = q.answer();
+    log.ev(1);
+    log.count("m1.queries", 1);
+    if invalid.contains(q) {
+      injected = true;
+      log.count("m1.refusals_injected", 1);
+      if got != "REFUSED" {
+        log.violate(format!("C10/refusal-accepted/{}", fnv(&q.show()) % 100000), "refused request", q.show(), got, "REFUSED".into());
+      }
+      continue;
+    }
+    let want = cold.get(q).cloned().unwrap_or_default();
+    if got != want {
+      let hist: Vec<String> = h[..=pos].iter().map(|x| x.show()).collect();
+      log.violate(
+        format!("C10/{}/{}_{}", tag, history_key(h), pos),
+        if injected { "answer after an earlier refusal" } else { "answer after a call history" },
+        format!("history: {}", hist.join(" ; ")),
+        format!("{} -> {}", q.show(), got),
+        format!("{} (cold-cache answer)", want),
+      );
+      break;
+    }
+    if injected {
+      log.count("m1.valid_answers_after_a_refusal", 1);
+    }
+  }
+  log.sample(|| format!("history of {} queries starting {} ; {}", h.len(), h.first().map(|q| q.show()).unwrap_or_default(), h.get(1).map(|q| q.show()).unwrap_or_default()));
+}
+
+fn m1(cfg: &Cfg, pool: &[Q], cold: &BTreeMap<Q, String>, log: &mut Log) {
+  let refs = refusals();
+  let invalid: BTreeSet<Q> = refs.iter().map(|r| r.1.clone()).collect();
+  let mut rng = Rng::new(mix(cfg.seed, 0x1C10));
+  // (a) every collision pair in both orders, alone and with a third query in between
+  let pairs: Vec<(Q, Q)> = pool
+    .iter()
+    .filter_map(|q| match q {
+      Q::Month(y, m) if (*m == 11 || *m == 12) && *y <= 999 => Some((q.clone(), Q::Month(10 * y + 1, m - 10))),
+      _ => None,
+    })
+    .filter(|(_, b)| cold.contains_key(b))
+    .collect();
+  for (a, b) in &pairs {
+    for h in [vec![a.clone(), b.clone()], vec![b.clone(), a.clone()], vec![a.clone(), rng.pick(pool).clone(), b.clone(), a.clone()], vec![b.clone(), a.clone(), b.clone()]] {
+      run_history("collision-history", &h, cold, &invalid, log);
+      log.count("m1.collision_pair_histories", 1);
+    }
+  }
+  // (b) refusal injected at every position of short histories, every kind
+  let nshort = cfg.tier.pick(12usize, 120usize);
+  for k in 0..nshort {
+    let len = 1 + k % 6;
+    let base: Vec<Q> = (0..len).map(|_| rng.pick(pool).clone()).collect();
+    for (kind, (_, r)) in refs.iter().enumerate() {
+      for pos in 0..=len {
+        if cfg.tier == Tier::Quick && (k + kind + pos) % 3 != 0 {
+          continue;
+        }
+        let mut h = base.clone();
+        h.insert(pos, r.clone());
+        // the same valid query right after the refusal, and once more at the end
+        h.push(base[0].clone());
+        run_history("refusal-history", &h, cold, &invalid, log);
+        log.count("m1.short_histories_with_an_injected_refusal", 1);
+      }
+    }
+  }
+  // (c) long random histories, biased to collisions, refusals at random positions
+  let nlong = cfg.tier.pick(300usize, 5_000usize);
+  for _ in 0..nlong {
+    let len = rng.range(50, 400) as usize;
+    let mut h: Vec<Q> = Vec::with_capacity(len);
+    for _ in 0..len {
+      let q = match rng.below(10) {
+        0 | 1 | 2 => {
+          let (a, b) = rng.pick(&pairs).clone();
+          if rng.chance(1, 2) {
+            a
+          } else {
+            b
+          }
+        }
+        3 => rng.pick(&refs).1.clone(),
+        _ => rng.pick(pool).clone(),
+      };
+      h.push(q);
+    }
+    run_history("long-history", &h, cold, &invalid, log);
+    log.count("m1.long_histories", 1);
+  }
+  // a poisoned flag is not observable through the API when every lock site recovers the guard; the
+  // behavioural verdict is "every later valid answer equals its cold answer" above.  Reported only.
+  let p = locks_poisoned();
+  if !p.is_empty() {
+    log.note(format!("after the sequential histories these locks carry the poison flag (calls recovered): {:?}", p));
+  }
+  let st = lhook::lunar_month_cache_stats();
+  log.count("m1.cache_hits_in_last_history", st.1);
+  log.count("m1.cache_misses_in_last_history", st.2);
+}
+
+fn m2(cfg: &Cfg, pool: &[Q], cold: &BTreeMap<Q, String>, log: &mut Log) {
+  let rounds = cfg.tier.pick(20usize, 300usize);
+  let nthreads = 16usize;
+  let refs = refusals();
+  // month-heavy list: the race is in LunarMonth::from_ym
+  let months: Vec<Q> = pool.iter().filter(|q| matches!(q, Q::Month(..) | Q::YearMonths(..) | Q::SolarToLunar(..) | Q::MonthNext(..))).cloned().collect();
+  let mut total_double = 0u64;
+  for r in 0..rounds {
+    let mut rng = Rng::new(mix(cfg.seed, r as u64 ^ 0x2C10));
+    let cold_start = r % 2 == 0;
+    let yields = if (r / 2) % 2 == 0 { 0 } else { 50 };
+    if cold_start {
+      lhook::lunar_month_cache_reset();
+    }
+    lhook::set_cache_gap_yields(yields);
+    let before = lhook::lunar_month_cache_stats();
+    // one shared list; every thread gets an overlapping, differently shuffled slice
+    let mut list: Vec<Q> = (0..120).map(|_| rng.pick(&months).clone()).collect();
+    for _ in 0..40 {
+      list.push(rng.pick(pool).clone());
+    }
+    let barrier = Arc::new(Barrier::new(nthreads));
+    let results: Arc<Mutex<Vec<(usize, Q, String)>>> = Arc::new(Mutex::new(vec![]));
+    std::thread::scope(|s| {
+      for t in 0..nthreads {
+        let mut mine: Vec<Q> = list.clone();
+        let mut trng = rng.fork(t as u64 + 1);
+        trng.shuffle(&mut mine);
+        mine.truncate(120);
+        // a few refused requests in the middle of the traffic
+        if t % 4 == 0 {
+          for k in 0..3 {
+            let at = trng.below(mine.len());
+            mine.insert(at, refs[(t + k) % refs.len()].1.clone());
+          }
+        }
+        let barrier = barrier.clone();
+        let results = results.clone();
+        s.spawn(move || {
+          barrier.wait();
+          let mut out = Vec::with_capacity(mine.len());
+          for q in mine {
+            let a = q.answer();
+            out.push((t, q, a));
+          }
+          results.lock().unwrap().extend(out);
+        });
+      }
+    });
+    lhook::set_cache_gap_yields(0);
+    let after = lhook::lunar_month_cache_stats();
+    let res = results.lock().unwrap();
+    let invalid: BTreeSet<Q> = refs.iter().map(|r| r.1.clone()).collect();
+    log.ev(1);
+    log.count("m2.rounds", 1);
+    if yields > 0 {
+      log.count("m2.rounds_with_the_injected_yield", 1);
+    }
+    let misses = after.2 - before.2;
+    let new_keys = (after.0 as u64).saturating_sub(if cold_start { 0 } else { before.0 as u64 });
+    let double = misses.saturating_sub(new_keys);
+    total_double += double;
+    log.count("m2.cache_misses", misses);
+    log.count("m2.cache_hits", after.1 - before.1);
+    log.count("m2.double_computes_observed", double);
+    for (t, q, a) in res.iter() {
+      log.ev(1);
+      log.count("m2.answers_compared", 1);
+      if invalid.contains(q) {
+        if a != "REFUSED" {
+          log.violate(format!("C10/refusal-accepted/{}", fnv(&q.show()) % 100000), "refused request (threads)", q.show(), a.clone(), "REFUSED".into());
+        }
+        continue;
+      }
+      let want = cold.get(q).cloned().unwrap_or_default();
+      if *a != want {
+        log.violate(
+          format!("C10/threads/{:04}_{:02}_{}", r, t, fnv(&q.show()) % 100000),
+          "answer under 16 concurrent threads",
+          format!("round {} ({} start, {} yields between lookup and insert), thread {}", r, if cold_start { "cold" } else { "warm" }, yields, t),
+          format!("{} -> {}", q.show(), a),
+          format!("{} (single-threaded cold answer)", want),
+        );
+      }
+    }
+    log.nt_distinct(mix(r as u64, 0x3C10));
+  }
+  if total_double == 0 {
+    log.harness_error("no double-compute was observed in any round: the race between lookup and insert was not exercised");
+  }
+  let p = locks_poisoned();
+  if !p.is_empty() {
+    log.note(format!("after the threaded rounds these locks carry the poison flag (calls recovered): {:?}", p));
+  }
+}
+
+fn m5(cfg: &Cfg, log: &mut Log) {
+  let c = cal();
+  let mut rng = Rng::new(mix(cfg.seed, 0x5C10));
+  let n = cfg.tier.pick(500, 20_000);
+  for _ in 0..n {
+    let day = loop {
+      let d = rng.range(c.dn(30, 1, 1), c.dn(9990, 1, 1));
+      if !(233..=243).contains(&c.date(d).0) {
+        break d;
+      }
+    };
+    let sod = rng.range(0, 86399);
+    log.ev(1);
+    log.count("m5.values", 1);
+    let r = guard(|| {
+      let l = sd_of_dn(day).get_lunar_day();
+      let fresh1 = l.clone();
+      let fresh2 = l.clone();
+      // order A on the original
+      let a1 = fmt_ymd(ymd(&l.get_solar_day()));
+      let a2 = l.get_sixty_cycle_day().get_sixty_cycle().get_name();
+      let warm = l.clone(); // memo filled
+                            // order B on a clone taken before any derived call
+      let b2 = fresh1.get_sixty_cycle_day().get_sixty_cycle().get_name();
+      let b1 = fmt_ymd(ymd(&fresh1.get_solar_day()));
+      // warm clone, and a never-touched clone
+      let c1 = fmt_ymd(ymd(&warm.get_solar_day()));
+      let c2 = warm.get_sixty_cycle_day().get_sixty_cycle().get_name();
+      let d2 = fresh2.get_sixty_cycle_day().get_month().get_name();
+      let d2w = warm.get_sixty_cycle_day().get_month().get_name();
+      let h = LunarHour::from_ymd_hms(l.get_year(), l.get_month(), l.get_day(), (sod / 3600) as usize, ((sod % 3600) / 60) as usize, (sod % 60) as usize);
+      let hf = h.clone();
+      let e1 = format!("{}", h.get_solar_time());
+      let e2 = h.get_sixty_cycle_hour().get_sixty_cycle().get_name();
+      let e3 = h.get_eight_char().get_name();
+      let f3 = hf.get_eight_char().get_name();
+      let f2 = hf.get_sixty_cycle_hour().get_sixty_cycle().get_name();
+      let f1 = format!("{}", hf.get_solar_time());
+      ((a1, a2), (b1, b2), (c1, c2), d2 == d2w, (e1, e2, e3), (f1, f2, f3))
+    });
+    match r {
+      Ok((a, b, cc, d, e, f)) => {
+        if a != b || a != cc || !d || e != f {
+          log.violate(format!("C10/memo/{}", cal::fmt_dn(day)), "per-value memos", cal::fmt_dn(day), format!("{:?} {:?} {:?} {} {:?} {:?}", a, b, cc, d, e, f), "identical answers in any call order, on clones taken before and after the first derived call".into());
+        }
+      }
+      Err(msg) => log.violate(format!("C10/memo/{}", cal::fmt_dn(day)), "per-value memos", cal::fmt_dn(day), format!("panic: {}", msg), "no panic".into()),
+    }
+  }
+}
+
+/// digest of the answers of the query list in the given order (fresh process)
+fn digest_in_order(qs: &[Q], order: &[usize], threaded: bool) -> Vec<(usize, u64)> {
+  let mut out: Vec<(usize, u64)> = Vec::with_capacity(qs.len());
+  if threaded {
+    let res: Mutex<Vec<(usize, u64)>> = Mutex::new(vec![]);
+    std::thread::scope(|s| {
+      for t in 0..8usize {
+        let res = &res;
+        s.spawn(move || {
+          let mut mine = vec![];
+          for (k, &i) in order.iter().enumerate() {
+            if k % 8 == t {
+              mine.push((i, fnv(&qs[i].answer())));
+            }
+          }
+          res.lock().unwrap().extend(mine);
+        });
+      }
+    });
+    out = res.into_inner().unwrap();
+  } else {
+    for &i in order {
+      out.push((i, fnv(&qs[i].answer())));
+    }
+  }
+  out.sort();
+  out
+}
+
+fn order_for(n: usize, seed: u64, which: u64) -> Vec<usize> {
+  let mut v: Vec<usize> = (0..n).collect();
+  match which {
+    0 => {}
+    1 => v.reverse(),
+    _ => Rng::new(mix(seed, which)).shuffle(&mut v),
+  }
+  v
+}
+
+const M4_QUERIES: usize = 2000;
+
+/// `vcheck --child <seed> <which> <threaded>`: answer the list in order `which`, print digests
+pub fn child_main(args: &[String]) {
+  crate::util::silence_panics();
+  let seed: u64 = args.first().and_then(|s| s.parse().ok()).unwrap_or(1);
+  let which: u64 = args.get(1).and_then(|s| s.parse().ok()).unwrap_or(0);
+  let threaded = args.get(2).map(|s| s == "1").unwrap_or(false);
+  let mut qs = pool(seed, M4_QUERIES);
+  // refused requests are part of the list: they must not disturb the answers around them
+  let refs = refusals();
+  for (k, r) in refs.iter().enumerate() {
+    qs.insert((k * 173) % qs.len(), r.1.clone());
+  }
+  let order = order_for(qs.len(), seed, which);
+  let d = digest_in_order(&qs, &order, threaded);
+  let mut all = 0xC10u64;
+  for (i, h) in &d {
+    println!("A {} {:016x}", i, h);
+    all = mix(all, mix(*i as u64, *h));
+  }
+  println!("DIGEST {:016x} {}", all, d.len());
+}
+
+fn m4(cfg: &Cfg, log: &mut Log) {
+  let exe = std::env::current_exe().map(|p| p.to_string_lossy().to_string()).unwrap_or_else(|_| cfg.exe.clone());
+  let orders: Vec<(u64, bool)> = match cfg.tier {
+    Tier::Quick => vec![(0, false), (1, false), (2, false), (3, true)],
+    Tier::Thorough => vec![(0, false), (1, false), (2, false), (3, false), (4, false), (5, false), (6, false), (7, false), (8, true), (9, true)],
+  };
+  let handles: Vec<_> = orders
+    .iter()
+    .map(|(w, th)| {
+      let exe = exe.clone();
+      let (w, th, seed) = (*w, *th, cfg.seed);
+      std::thread::spawn(move || std::process::Command::new(exe).arg("--child").arg(seed.to_string()).arg(w.to_string()).arg(if th { "1" } else { "0" }).output())
+    })
+    .collect();
+  let mut tables: Vec<(u64, bool, BTreeMap<usize, String>)> = vec![];
+  for (h, (w, th)) in handles.into_iter().zip(orders.iter()) {
+    match h.join() {
+      Ok(Ok(out)) if out.status.success() => {
+        let text = String::from_utf8_lossy(&out.stdout);
+        let mut m = BTreeMap::new();
+        for line in text.lines() {
+          let p: Vec<&str> = line.split(' ').collect();
+          if p.len() == 3 && p[0] == "A" {
+            if let Ok(i) = p[1].parse::<usize>() {
+              m.insert(i, p[2].to_string());
+            }
+          }
+        }
+        tables.push((*w, *th, m));
+      }
+      other => log.harness_error(&format!("fresh-process child (order {}) failed: {:?}", w, other.map(|r| r.map(|o| o.status))).chars().take(300).collect::<String>()),
+    }
+  }
+  if tables.len() < 2 {
+    log.harness_error("fewer than two fresh-process answer tables");
+    return;
+  }
+  let qs = {
+    let mut qs = pool(cfg.seed, M4_QUERIES);
+    for (k, r) in refusals().iter().enumerate() {
+      qs.insert((k * 173) % qs.len(), r.1.clone());
+    }
+    qs
+  };
+  let (w0, _, base) = &tables[0];
+  log.count("m4.fresh_processes", tables.len() as u64);
+  log.count("m4.queries_per_process", base.len() as u64);
+  for (w, th, m) in tables.iter().skip(1) {
+    log.ev(1);
+    log.nt(1);
+    if m.len() != base.len() {
+      log.harness_error(&format!("child {} answered {} queries, child {} answered {}", w, m.len(), w0, base.len()));
+      continue;
+    }
+    for (i, a) in m {
+      log.ev(1);
+      log.count("m4.answers_compared", 1);
+      if base.get(i) != Some(a) {
+        let q = qs.get(*i).map(|q| q.show()).unwrap_or_default();
+        log.violate(format!("C10/fresh-process/{:05}", i), "answer in a fresh process", format!("query #{} {} in order {}{} vs order {}", i, q, w, if *th { " (8 threads)" } else { "" }, w0), a.clone(), base.get(i).cloned().unwrap_or_default());
+      }
+    }
+  }
+}
+
+fn m3_miri(cfg: &Cfg, log: &mut Log) {
+  let seeds = 16u64;
+  let dir = format!("{}/miri", cfg.root);
+  // one build first (sequential), then the seeds in parallel processes
+  let dir2 = dir.clone();
+  let run = move |seed: u64| {
+    let dir = dir2.clone();
+    std::process::Command::new("cargo")
+      .args(["+nightly", "miri", "run", "--offline", "--quiet", "--manifest-path"])
+      .arg(format!("{}/Cargo.toml", dir))
+      .env("MIRIFLAGS", format!("-Zmiri-disable-isolation -Zmiri-seed={}", seed))
+      .env("CARGO_NET_OFFLINE", "true")
+      .env("CARGO_TARGET_DIR", format!("{}/target", dir))
+      .output()
+  };
+  let first = run(0);
+  let classify = |seed: u64, out: std::io::Result<std::process::Output>, log: &mut Log| match out {
+    Ok(o) => {
+      let so = String::from_utf8_lossy(&o.stdout).to_string();
+      let se = String::from_utf8_lossy(&o.stderr).to_string();
+      if o.status.success() && so.contains("MIRI-OK") {
+        log.ev(1);
+        log.nt(1);
+        log.count("m3.miri_seeds_clean", 1);
+        if let Some(l) = so.lines().find(|l| l.starts_with("MIRI-OK")) {
+          log.sample(|| format!("miri seed {}: {}", seed, l));
+        }
+      } else if se.contains("Undefined Behavior") || se.contains("data race") || so.contains("MIRI-MISMATCH") {
+        let msg: String = se.lines().chain(so.lines()).filter(|l| l.contains("Undefined Behavior") || l.contains("data race") || l.contains("MIRI-MISMATCH") || l.contains("error")).take(4).collect::<Vec<_>>().join(" | ");
+        log.violate(format!("C10/miri/seed-{:02}", seed), "Miri interpretation of the threaded cache workload", format!("seed {}", seed), msg.chars().take(400).collect(), "no undefined behaviour, no data race, answers equal to the cold answers".into());
+      } else {
+        log.harness_error(&format!("miri seed {} did not run to a verdict (status {:?}): {}", seed, o.status.code(), se.lines().rev().take(3).collect::<Vec<_>>().join(" | ")).chars().take(400).collect::<String>());
+      }
+    }
+    Err(e) => log.harness_error(&format!("cannot start cargo miri: {}", e)),
+  };
+  classify(0, first, log);
+  let handles: Vec<_> = (1..seeds)
+    .map(|s| {
+      let run = run.clone();
+      std::thread::spawn(move || (s, run(s)))
+    })
+    .collect();
+  for h in handles {
+    if let Ok((s, out)) = h.join() {
+      classify(s, out, log);
+    }
+  }
+  log.floor("m3.miri_seeds_clean", 8);
+}
+
+pub fn run(cfg: &Cfg) -> (Log, Meta) {
+  let mut log = Log::new();
+  if let Err(e) = cal::self_test() {
+    log.harness_error(&format!("oracle self-test failed: {}", e));
+  }
+  let pool_size = cfg.tier.pick(400usize, 1500usize);
+  let p = pool(cfg.seed, pool_size);
+  let cold = cold_answers(&p);
+  // every pool query is valid: its cold answer is not a refusal
+  for (q, a) in &cold {
+    if a == "REFUSED" {
+      log.violate(format!("C10/cold-refused/{}", fnv(&q.show()) % 100000), "cold answer of a valid query", q.show(), "REFUSED".into(), "an answer".into());
+    }
+  }
+  log.count("pool.distinct_valid_queries", p.len() as u64);
+  log.count("pool.refusal_kinds", refusals().len() as u64);
+  m1(cfg, &p, &cold, &mut log);
+  m2(cfg, &p, &cold, &mut log);
+  m5(cfg, &mut log);
+  m4(cfg, &mut log);
+  if cfg.tier == Tier::Thorough {
+    m3_miri(cfg, &mut log);
+  }
+  log.floor("m1.collision_pair_histories", 50);
+  log.floor("m1.short_histories_with_an_injected_refusal", cfg.tier.pick(100, 3_000));
+  log.floor("m1.valid_answers_after_a_refusal", cfg.tier.pick(1_000, 50_000));
+  log.floor("m1.long_histories", cfg.tier.pick(30, 500));
+  log.floor("m2.rounds", cfg.tier.pick(10, 100));
+  log.floor("m2.double_computes_observed", cfg.tier.pick(20, 300));
+  log.floor("m2.answers_compared", cfg.tier.pick(10_000, 200_000));
+  log.floor("m4.fresh_processes", 3);
+  log.floor("m4.answers_compared", 4_000);
+  log.floor("m5.values", cfg.tier.pick(100, 5_000));
+  let meta = Meta {
+    rule: format!(
+      "pool of {} distinct valid queries (lunar months incl. the digit-colliding label pairs (Y,11)/(10Y+1,1), (Y,12)/(10Y+1,2), year month lists, both conversions, sexagenary days, festivals, eight characters, child limits, month stepping) and {} kinds of refused request; reference = cold answer after the guarded cache reset. M1: every collision pair in 4 orders; refusal of every kind at every position of {} short histories (length 1..6){}; {} random histories of 50..400 queries (30% collision labels, 10% refusals) - every answer equals its cold answer, no lock poisoned. M2: {} rounds of 16 barrier-released threads on overlapping shuffled slices (120 of 160 queries each, refusals in every 4th thread), alternating cold/warm start and 0/50 injected yields between cache lookup and insert; double-computes counted from the hook (a run with none is inconclusive). M4: {} fresh processes answer the same 2,011-query list in different orders (the last ones on 8 threads). M5: per-value memos of LunarDay/LunarHour on clones taken before/after the first derived call. {} distinct_nontrivial = distinct histories, rounds, process pairs.",
+      p.len(),
+      refusals().len(),
+      cfg.tier.pick(12, 120),
+      if cfg.tier == Tier::Quick { " (every third combination)" } else { "" },
+      cfg.tier.pick(300, 5_000),
+      cfg.tier.pick(20, 300),
+      cfg.tier.pick(4, 10),
+      if cfg.tier == Tier::Thorough { "M3: 16 Miri seeds of a 3-thread colliding-key workload with one refused request." } else { "" }
+    ),
+    assumptions: vec![
+      "interleavings are those the OS scheduler (and, in thorough, 16 Miri seeds) produced; the evidence reports the double-computes observed".into(),
+      "the reset hook empties the lunar month cache only; lazy-static initialisation order and anything else process-wide is covered by the fresh-process monitor".into(),
+      "day-level queries avoid AD < 30 and 233-243 (listed findings of C02/C03) so that every pool query has a cold answer".into(),
+    ],
+    exhaustive: false,
+  };
+  (log, meta)
+}
